@@ -52,6 +52,24 @@ CLAIMED = {
             "driver (bit-exact at slack 0) and checked directly by the spend-back experiment of the property's quantifier.",
             "Trusted: Lean kernel + Mathlib; number of iterations of the double-precision loop is observed (>= 52 or exact "
             "root), not proved; two rounding regions are listed known findings.", "§6 C18"),
+    "C01": ("Lean 4 proof: exact laws of the transcribed samplers (Lebesgue measure of preimages / branching recursion) and "
+            "epsilon-ratio bounds for all seven families + exact-law extraction from the running code and direct ratio check",
+            "Machine-checked over R about the samplers as coded: Binary's flip/keep sets have measure 1/(e^eps+1), "
+            "e^eps/(e^eps+1) and ratio <= e^eps; the geometric noise map has atoms (1-r)/(1+r) r^|k| (exact cells, "
+            "measurability proved) and is eps-DP atom-wise for |x-x'| <= sens, lifted to every output set and through any "
+            "input-independent post-processing (truncated and folded geometric for integer, half-integer and infinite "
+            "bounds); exponential selection returns index i exactly on [cum_{i-1}, cum_i) and is eps-DP with base measure "
+            "(scale eps/(2 sens); monotonic eps/sens; degenerate sensitivity 0; the max-shift cancels); bernoulli_neg_exp "
+            "returns 1 with probability e^-gamma; permute-and-flip: the sampler's own recursion equals the closed law and is "
+            "eps-DP for any number of candidates; categorical unbalanced (factor 2) and balanced (equal normalisers), "
+            "hierarchy utilities symmetric and in range. PARTIAL: the categorical balanced flag is decided with isclose "
+            "(rtol 1e-12): cat_dp_partial carries 'flag => equal normalisers', cat_dp_full is kept unproved; multi-uniform "
+            "laws treat each comparison as a Bernoulli branch. Tied to the code by (i) sampler outputs under scripted "
+            "uniforms vs the driver, (ii) the exact pmf of the RUNNING sampler extracted by break-point bisection / decision-"
+            "tree enumeration vs the model's closed-form law, and the property is checked directly on the extracted pmf "
+            "(every neighbour pair and atom >= 1e-9, slack 1e-6).",
+            "Trusted: Lean kernel + Mathlib; random() uniform on the 53-bit grid with independent draws; the law extractor; "
+            "u = 1/2 and zero-width domains belong to C12.", "§6 C01"),
     "C02": ("Lean 4 proof: (eps,delta) theorems for the Laplace family/uniform/staircase on all measurable sets, calibration "
             "identities, bracket invariants of the root finders (any carrier) + calibration correspondence and 60-digit "
             "hockey-stick evaluation from the implementation's parameters",
